@@ -66,6 +66,9 @@ func (c *Ctx) countPairs(fn *ssa.Function, header *ssa.BasicBlock, a, b Sel) map
 		}
 		outOf[blk] = cur
 		for i, succ := range blk.Succs {
+			if ir.NilGuardEdges(fn)[ir.Edge{From: blk, Succ: i}] {
+				continue // a guard clause on an input that must be present
+			}
 			if be[ir.Edge{From: blk, Succ: i}] {
 				for s := range cur {
 					addEnd("next-iteration@"+c.at(blk.Instrs[len(blk.Instrs)-1]), s)
